@@ -43,6 +43,9 @@ func TestDebug(t *testing.T) {
 			g.Apply(ev)
 			sn, mq := g.TakeSN(), g.TakeMQ()
 			vs := m.After(g, ev, sn, mq, setup)
+			for _, o := range sn {
+				fmt.Printf("   raw sn: %x err=%v\n", o.Raw, o.Err)
+			}
 			fmt.Printf("== %s\n   sn=%v\n   mq=%v\n   viol=%v\n   snap=%s\n   mon=%s\n", gw.Label(ev), sn, mq, vs, g.Snapshot(), m.Key())
 		}
 		for _, ev := range sp.Setup {
